@@ -82,6 +82,10 @@ var c14Differential = []struct {
 	// the fused row holds the slot of an AWAIT around the call's own slot
 	{"SELECT id, FUSE((SELECT AWAIT(%Q%fx(1, a)) AS v FROM dual)) FROM t", false},
 	{"SELECT id, FUSE((SELECT AWAIT(%Q%fx(1, a)) AS v, id AS w FROM dual)) AS p FROM t", false},
+	// a later item - `*`, a FUSE - brings a column of the name the call's item was given: the later one wins
+	{"SELECT %Q%fx(1, a) AS a, * FROM t", false},
+	{"SELECT id, %Q%fx(1, a) AS s, FUSE((SELECT s FROM dual)) FROM t", false},
+	{"SELECT id, AWAIT(%Q%fx(1, a)) AS a, * FROM t", false},
 }
 
 // genC14FailingRow: a synchronous step fails on some row while ASYNC/SPINASYNC calls of earlier rows (and items) are
